@@ -350,7 +350,7 @@ impl Engine for SbEngine {
         "C18"
     }
     fn budget(&self) -> (u64, u64) {
-        (60_000, 240)
+        (400_000, 240)
     }
 
     fn generate(&self, seed: u64, _tier: Tier) -> Case<SbCfg, SbOp> {
